@@ -70,11 +70,31 @@ class Known:
         return fid
 
 
+def _regression_cases(pid):
+    """committed regression corpus: shrunk cases on which a mutant or seeded change violated the
+    property (replays/regress/<PID>-*.json); they must hold on the current tree"""
+    d = os.path.join(HERE, 'replays', 'regress')
+    if not os.path.isdir(d):
+        return []
+    return sorted(os.path.join('replays', 'regress', f) for f in os.listdir(d)
+                  if f.upper().startswith(pid + '-') and f.endswith('.json'))
+
+
 def replay_witnesses(pid, mod, known):
-    """re-run the committed witnesses of findings that concern this property"""
-    out = {'n': 0, 'known': [], 'fails': []}
+    """re-run the committed witnesses of findings that concern this property, and the regression
+    corpus of this property"""
+    out = {'n': 0, 'known': [], 'fails': [], 'regress': 0}
     if not hasattr(mod, 'oracle'):
         return out
+    for w in _regression_cases(pid):
+        with open(os.path.join(HERE, w)) as f:
+            data = json.load(f)
+        case = data['case'] if 'case' in data else data
+        r = mod.oracle(case)
+        out['regress'] += 1
+        unknown = [v for v in r.get('violations', []) if known.match(pid, v, case) is None]
+        if unknown:
+            out['fails'].append({'case': case, 'violations': unknown})
     for e in known.entries:
         if pid not in e.get('properties', []):
             continue
